@@ -3,4 +3,5 @@ INVARIANT NormAccepted
 INVARIANT GrowRejected
 INVARIANT IndentRejected
 INVARIANT DropRejected
+INVARIANT EndsExempt
 CHECK_DEADLOCK FALSE
